@@ -8,7 +8,7 @@ PROP = dict(
               "decompose_loses_no_contour", "affine_key_equality",
               "decompose_multiset_refuted", "flatten_preserves_resolve", "split_preserves_resolve",
               "replacement_preserves_all_glyphs", "options_keep_every_glyph", "option_lattice",
-              "flatten_overflow_refuted", "quantisation_bound", "quantisation_one_unit_per_level"],
+              "stored_components_in_range", "quantisation_bound", "quantisation_one_unit_per_level"],
     prelude="Require Import FV.C12.Model.\nFrom Coq Require Import List NArith ZArith QArith Qcanon Bool.\n"
             "Close Scope Qc_scope.\nClose Scope Q_scope.",
     harness_args=lambda tier, seed: ["--seed", str(seed), "--n", str(N[tier]), "--threads", "16"],
@@ -56,9 +56,10 @@ MANIFEST = dict(
          "that uses it; the whole pass under every one of the 16 option subsets keeps every source glyph's resolved "
          "contours and advance and any two subsets agree, whenever the run reports that no contour was passed over; "
          "decomposition never invents a contour and never loses one (its visited set only drops repetitions); "
-         "machine-checked counterexamples for the two ways the statement fails (visited-set merge of identical nested "
-         "component instances changes the contour multiset; flattening composes a 2x2 out of F2Dot14 range, which the "
-         "backend saturates); explicit rounding "
+         "a machine-checked counterexample for the one way the multiset statement fails (visited-set merge of identical "
+         "nested component instances); after the pass no glyph of the glyph order has a component with a 2x2 entry "
+         "outside [-2,2] under any option subset (flattening re-tests composed transforms and decomposes: the repaired "
+         "flatten overflow), so the backend's saturating F2Dot14 conversion is never reached out of range; explicit rounding "
          "bound per nesting level for stored composites against decomposed outlines, and 'one unit per level' for "
          "non-magnifying chains. Tied to the code on every run: sources built under all option subsets, outlines and "
          "advances compared with skrifa at every master against the resolved source, IR compared with the model.",
